@@ -274,7 +274,7 @@ func directCaller(route *node, ctxSelf common.Address, sys string) common.Addres
 }
 
 func (w *world) genRoute(t *rapid.T, sys string) *node {
-	switch pick(t, "route", "direct", 4, "proxy", 3, "proxy>proxy", 2, "dproxy", 1, "dproxy>proxycode", 2, "proxy>dproxy", 1) {
+	switch pick(t, "route", "direct", 4, "proxy", 3, "proxy>proxy", 2, "dproxy", 1, "dproxy>proxycode", 2, "proxy>dproxy", 1, "clone", 1) {
 	case "direct":
 		return w.sys[sys]
 	case "proxy":
@@ -285,6 +285,8 @@ func (w *world) genRoute(t *rapid.T, sys string) *node {
 		return w.routes[sys][2]
 	case "dproxy>proxycode":
 		return w.routes[sys][3]
+	case "clone":
+		return w.routes[sys][5]
 	default:
 		return w.routes[sys][4]
 	}
@@ -300,7 +302,18 @@ func (w *world) victims() []common.Address {
 }
 
 func malformed(t *rapid.T, sys string) ([]byte, string) {
-	switch k := pick(t, "malformed", "short", 1, "unknown-selector", 1, "other-contract-method", 1, "truncated-args", 1); k {
+	switch k := pick(t, "malformed", "short", 1, "unknown-selector", 1, "other-contract-method", 1, "truncated-args", 1, "dirty-high-bits", 1); k {
+	case "dirty-high-bits":
+		// a uint64 / offset word with bits above the type's width: the ABI decoder of the compiled contracts rejects it
+		var bz []byte
+		if sys == "gov" {
+			bz = (&action{Method: "vote", Proposal: 1, Option: 1}).calldata()
+			bz[4+32-9] = 1 // bit 64 of proposalID
+		} else {
+			bz = (&action{Method: "withdraw", Val: "x"}).calldata()
+			bz[4+32-9] = 1 // string offset >= 2^64
+		}
+		return bz, k
 	case "short":
 		return rapid.SliceOfN(rapid.Byte(), 0, 3).Draw(t, "short"), k
 	case "unknown-selector":
@@ -756,4 +769,67 @@ func TestC17_CallerOnlyAtomic(t *testing.T) {
 func TestC17_BurnToFeeCollector(t *testing.T) {
 	r := rec.For("TestC17_BurnToFeeCollector", ruleBurn)
 	rapid.Check(t, func(t *rapid.T) { runHistory(t, r, "burn") })
+}
+
+// TestC17_PinnedAttribution is a library-free anchor with absolute (non-differential) assertions, so
+// that the differential oracle cannot pass vacuously: who ends up with the delegation / vote.
+func TestC17_PinnedAttribution(t *testing.T) {
+	r := rec.For("TestC17_PinnedAttribution", "pinned: EOA, proxy, delegatecall-proxy, emitter and double-call script against absolute expectations")
+	c := kit.NewChain("teleport_9000-1", kit.ChainOpts{Seed: []byte("c17"), NumValidators: 2, NumAccounts: 8, GenesisMutator: mutateGenesis})
+	w := &world{r: r, c: c, triples: map[string]bool{}}
+	w.whale, w.proposer, w.deployer, w.treasury = c.Accounts[0], c.Accounts[3], c.Accounts[4], c.Accounts[7]
+	eoa := c.Accounts[1]
+	val := c.App.StakingKeeper.GetAllValidators(c.Ctx())[0].OperatorAddress
+	leaf := &node{Kind: "sys", Sys: "staking", Addr: stakingAddr}
+	p := w.deployNode(&node{Kind: "proxy", Target: leaf})
+	d := w.deployNode(&node{Kind: "dproxy", Target: leaf})
+	e := w.deployNode(&node{Kind: "emitter"})
+	w.fund(p.Addr, 1_000_000)
+	w.fund(d.Addr, 1_000_000)
+	del := func(a common.Address) sdk.Int { return w.delegatedTokens(a, val) }
+	act := &action{Sys: "staking", Method: "delegate", Val: val, Amount: big.NewInt(1000)}
+	fail := func(format string, a ...interface{}) { t.Helper(); t.Fatalf("C17 pinned: "+format, a...) }
+
+	// 1. direct call: the EOA delegates
+	if res := c.DeliverEth(eoa, &leaf.Addr, nil, act.calldata()); !res.Succeeded() || !del(eoa.Addr).Equal(sdk.NewInt(1000)) {
+		fail("direct delegate: ok=%v delegated=%s (want 1000)", res.Succeeded(), del(eoa.Addr))
+	}
+	// 2. through a proxy: the proxy delegates its own coins, the EOA's position is untouched
+	balP := w.bal(c.Ctx(), sdk.AccAddress(p.Addr.Bytes()))
+	if res := c.DeliverEth(eoa, &p.Addr, nil, act.calldata()); !res.Succeeded() || !del(p.Addr).Equal(sdk.NewInt(1000)) || !del(eoa.Addr).Equal(sdk.NewInt(1000)) ||
+		!balP.Sub(w.bal(c.Ctx(), sdk.AccAddress(p.Addr.Bytes()))).Equal(sdk.NewInt(1000)) {
+		fail("proxy delegate: ok=%v proxy=%s eoa=%s", res.Succeeded(), del(p.Addr), del(eoa.Addr))
+	}
+	// 3. DELEGATECALL of the Staking code: event comes from the proxy's address => nothing native happens
+	pre := c.DumpStores(c.Ctx(), nativeStores...)
+	if res := c.DeliverEth(eoa, &d.Addr, nil, act.calldata()); !res.Succeeded() || len(res.Logs) != 1 || res.Logs[0].Address != d.Addr {
+		fail("delegatecall proxy: ok=%v logs=%d", res.Succeeded(), len(res.Logs))
+	}
+	// 4. byte-identical Delegated event from an emitter naming the (funded) EOA
+	t0, data := act.eventLog(eoa.Addr)
+	if res := c.DeliverEth(eoa, &e.Addr, nil, append(t0.Bytes(), data...)); !res.Succeeded() || len(res.Logs) != 1 || string(res.Logs[0].Data) != string(data) {
+		fail("emitter: ok=%v", res.Succeeded())
+	}
+	if df := kit.Diff(pre, c.DumpStores(c.Ctx(), nativeStores...)); len(df) > 0 {
+		fail("look-alike events had a native effect:\n%s", kit.DiffString(df, 5))
+	}
+	// 5. two calls in one tx => two delegations; a failing second action undoes the first
+	two := w.deployNode(&node{Kind: "script", Ops: []sop{{Kind: "call", Target: leaf, Payload: payload{Act: act}}, {Kind: "call", Target: leaf, Payload: payload{Act: act}}}})
+	w.fund(two.Addr, 1500)
+	pre = c.DumpStores(c.Ctx(), allStores...)
+	if res := c.DeliverEth(eoa, &two.Addr, nil, nil); res.Succeeded() || len(kit.Diff(pre, c.DumpStores(c.Ctx(), allStores...))) > 0 {
+		fail("script with 1500 coins delegating 2x1000 must fail and change nothing: ok=%v", res.Succeeded())
+	}
+	w.fund(two.Addr, 500)
+	if res := c.DeliverEth(eoa, &two.Addr, nil, nil); !res.Succeeded() || !del(two.Addr).Equal(sdk.NewInt(2000)) {
+		fail("script delegating 2x1000: ok=%v delegated=%s", res.Succeeded(), del(two.Addr))
+	}
+	// 6. unknown validator: tx fails, nothing changes
+	bad := &action{Sys: "staking", Method: "delegate", Val: sdk.ValAddress(make([]byte, 20)).String(), Amount: big.NewInt(5)}
+	pre = c.DumpStores(c.Ctx(), allStores...)
+	if res := c.DeliverEth(eoa, &p.Addr, nil, bad.calldata()); res.Succeeded() || len(kit.Diff(pre, c.DumpStores(c.Ctx(), allStores...))) > 0 {
+		fail("delegate to unknown validator through proxy: ok=%v", res.Succeeded())
+	}
+	r.Case("pinned-attribution", true, func() interface{} { return "6 absolute scenarios held" })
+	r.Case("pinned-attribution-2", true, nil)
 }
